@@ -340,6 +340,10 @@ func runC11(p *core.Program, r *core.Report) {
 	c11R6(p, r)
 	c11R7(p, r)
 	c11R8(p, r)
+	// R9: "foreign ones under their import name": the name bound to a package is a valid identifier
+	chainRules(p, r, "R9", "C03", []string{"C03.R5"}, "import names are valid non-keyword identifiers")
+	// R10: generic instantiations: the package path of a type argument is registered and printed as parsed
+	chainRules(p, r, "R10", "C15", []string{"C15.R4"}, "the rewrite of nested package paths changes a path only to '' or the tracker's name for it")
 	// R5 generic receiver names
 	r.Floor("R5", 1)
 	nf := p.FuncByName("pkg/namer", "(*rawNamer).Name")
